@@ -80,9 +80,18 @@ void __tsan_vptr_read(void** vptr_p) {
   if (sim_on()) arena_check(vptr_p, sizeof(void*), false);
 }
 
+// An instrumented thread that performs tens of millions of plain accesses without
+// reaching a single synchronisation operation is spinning forever on data only it
+// can change (e.g. walking a list that has become cyclic): a deterministic livelock verdict.
+static inline void plain_tick() {
+  if (__builtin_expect(++R.plain_since_step > 30000000ull, 0)) {
+    ++tl_self->in_rt;
+    end_run_with_verdict(USIM_V_LIVELOCK, "sim.livelock", "30M plain memory accesses without reaching a synchronisation operation (endless loop on private/locked data)");
+  }
+}
 #define PLAIN(N)                                                          \
-  void __tsan_read##N(void* a) { if (sim_on()) arena_check(a, N, false); } \
-  void __tsan_write##N(void* a) { if (sim_on()) arena_check(a, N, true); } \
+  void __tsan_read##N(void* a) { if (sim_on()) { plain_tick(); arena_check(a, N, false); } } \
+  void __tsan_write##N(void* a) { if (sim_on()) { plain_tick(); arena_check(a, N, true); } } \
   void __tsan_unaligned_read##N(void* a) { if (sim_on()) arena_check(a, N, false); } \
   void __tsan_unaligned_write##N(void* a) { if (sim_on()) arena_check(a, N, true); } \
   void __tsan_read##N##_pc(void* a, void*) { if (sim_on()) arena_check(a, N, false); } \
